@@ -5,6 +5,8 @@ package main
 
 import (
 	"fmt"
+	"sort"
+	"strings"
 	"os"
 	"path/filepath"
 	"go/types"
@@ -142,7 +144,7 @@ func init() {
 	externWrites["fmt.Errorf"] = noWrites
 	externs["fmt.Sprintf"] = func(f *Frame, b *ssa.BasicBlock, in *ssa.Call, args []Val, st *State, g string) Val {
 		e := f.e
-		e.note("assumed contract: fmt.Sprintf returns an unconstrained string, no heap effect; Sprintf(\"%v\", s) of a string s is s")
+		e.note("assumed contract: fmt.Sprintf returns an unconstrained string, no heap effect; Sprintf(\"%v\", s) of a string s is s, of a byte slice a function of its bytes (fmt_v_bytes)")
 		res := e.freshConst(hname(f, in, "sprintf"), "Str")
 		if in != nil {
 			if c, ok := in.Call.Args[0].(*ssa.Const); ok && c.Value != nil && c.Value.ExactString() == `"%v"` && len(args) > 1 && args[1].KLen == 2 {
@@ -150,6 +152,10 @@ func init() {
 				op := sel(sel(st.H(h), app("s_arr", args[1].T)), app("sidx", app("s_off", args[1].T), "0"))
 				strTag := e.tagOf(types.Typ[types.String])
 				e.assume(implies(eq(app("i_tag", op), itoa(strTag)), eq(res, e.unbox(types.Typ[types.String], app("i_val", op)))))
+				// a byte slice: a function of its bytes (uninterpreted: fmt_v_bytes)
+				bytesT := types.NewSlice(types.Universe.Lookup("byte").Type())
+				sl := e.unbox(bytesT, app("i_val", op))
+				e.assume(implies(eq(app("i_tag", op), itoa(e.tagOf(bytesT))), eq(res, e.fmtBytes(st, sl))))
 			}
 		}
 		return Val{T: res}
@@ -239,6 +245,43 @@ func init() {
 	}
 	externWrites["github.com/aws/aws-sdk-go/aws/awserr.New"] = noWrites
 	externReads["github.com/aws/aws-sdk-go/aws/awserr.New"] = func(fn *ssa.Function) []hkey { return nil }
+	// text predicates used by the request validators: uninterpreted functions of their arguments
+	externs["strings.Contains"] = func(f *Frame, b *ssa.BasicBlock, in *ssa.Call, args []Val, st *State, g string) Val {
+		f.e.note("assumed contract: strings.Contains / strings.TrimSpace / (*regexp.Regexp).MatchString are functions of their arguments (uninterpreted: str_contains, str_trim, re_match); no heap effect")
+		f.e.declText()
+		return Val{T: app("str_contains", args[0].T, args[1].T)}
+	}
+	externs["strings.TrimSpace"] = func(f *Frame, b *ssa.BasicBlock, in *ssa.Call, args []Val, st *State, g string) Val {
+		f.e.declText()
+		return Val{T: app("str_trim", args[0].T)}
+	}
+	externs["(*regexp.Regexp).MatchString"] = func(f *Frame, b *ssa.BasicBlock, in *ssa.Call, args []Val, st *State, g string) Val {
+		f.e.declText()
+		return Val{T: app("re_match", args[0].T, args[1].T)}
+	}
+	for _, n := range []string{"strings.Contains", "strings.TrimSpace", "(*regexp.Regexp).MatchString"} {
+		externWrites[n] = noWrites
+		externReads[n] = func(fn *ssa.Function) []hkey { return nil }
+	}
+	// strconv: the two float conversions are uninterpreted functions of their arguments (no decimal semantics - C12)
+	externs["strconv.FormatFloat"] = func(f *Frame, b *ssa.BasicBlock, in *ssa.Call, args []Val, st *State, g string) Val {
+		e := f.e
+		e.note("assumed contract: strconv.FormatFloat is a function of its arguments (uninterpreted: fmt_float); no heap effect")
+		e.declStrconv()
+		return Val{T: app("fmt_float", args[0].T, args[1].T, args[2].T, args[3].T)}
+	}
+	externWrites["strconv.FormatFloat"] = noWrites
+	externReads["strconv.FormatFloat"] = func(fn *ssa.Function) []hkey { return nil }
+	externs["strconv.ParseFloat"] = func(f *Frame, b *ssa.BasicBlock, in *ssa.Call, args []Val, st *State, g string) Val {
+		e := f.e
+		e.note("assumed contract: strconv.ParseFloat is a function of its arguments (uninterpreted: parse_float, parse_float_err); no heap effect on existing objects")
+		e.declStrconv()
+		r := app("parse_float_err", args[0].T, args[1].T)
+		e.assume(app("iface_ok", r))
+		return Val{Tup: []Val{{T: app("parse_float", args[0].T, args[1].T)}, {T: r}}}
+	}
+	externWrites["strconv.ParseFloat"] = noWrites
+	externReads["strconv.ParseFloat"] = func(fn *ssa.Function) []hkey { return nil }
 	externs["reflect.DeepEqual"] = func(f *Frame, b *ssa.BasicBlock, in *ssa.Call, args []Val, st *State, g string) Val {
 		e := f.e
 		e.note("assumed contract: reflect.DeepEqual(x, y) is the library's structural equality of the two values in the current state (uninterpreted: deep_equal); no heap effect")
@@ -246,6 +289,53 @@ func init() {
 		if len(args) != 2 || args[0].T == "" || args[1].T == "" {
 			return Val{T: e.freshConst(hname(f, in, "deq"), "Bool")}
 		}
+		// For the module's flat records (pointer to a struct whose fields are all of basic type) structural equality is
+		// spelled out from the declared fields (go/types): same object, or every field equal in the current state.
+		// A field added to such a record therefore becomes part of the equality the contracts see.
+		var ifaceT *types.Interface
+		if ci, ok := in.Call.Args[0].(*ssa.ChangeInterface); ok {
+			ifaceT, _ = ci.X.Type().Underlying().(*types.Interface)
+		}
+		for _, p := range e.prog.AllPackages() {
+			if !strings.HasPrefix(p.Pkg.Path(), modulePath) {
+				continue
+			}
+			var names []string
+			for n := range p.Members {
+				names = append(names, n)
+			}
+			sort.Strings(names)
+			for _, n := range names {
+				tm, ok := p.Members[n].(*ssa.Type)
+				if !ok {
+					continue
+				}
+				stT, ok := tm.Type().Underlying().(*types.Struct)
+				if !ok || stT.NumFields() == 0 {
+					continue
+				}
+				flat := true
+				for i := 0; i < stT.NumFields(); i++ {
+					if _, ok := stT.Field(i).Type().Underlying().(*types.Basic); !ok {
+						flat = false
+					}
+				}
+				ptrT := types.NewPointer(tm.Type())
+				if !flat || (ifaceT != nil && !types.Implements(ptrT, ifaceT)) {
+					continue
+				}
+				tag := fmt.Sprint(e.tagOf(ptrT))
+				pa, pb := app("i_val", args[0].T), app("i_val", args[1].T)
+				var fs []string
+				for i := 0; i < stT.NumFields(); i++ {
+					h := e.fieldHeap(tm.Type(), i)
+					fs = append(fs, eq(sel(st.H(h), pa), sel(st.H(h), pb)))
+				}
+				e.assume(implies(and(g, eq(app("i_tag", args[0].T), tag), eq(app("i_tag", args[1].T), tag), not(eq(pa, "0")), not(eq(pb, "0"))),
+					eq(app("deep_equal", args[0].T, args[1].T), or(eq(pa, pb), and(fs...)))))
+			}
+		}
+		e.note("assumed contract: reflect.DeepEqual of two non-nil pointers to the same flat record type (all fields of basic type) is pointer equality or equality of every declared field (float64 NaN not modelled)")
 		return Val{T: app("deep_equal", args[0].T, args[1].T)}
 	}
 	externWrites["reflect.DeepEqual"] = noWrites
@@ -412,4 +502,19 @@ func (e *Enc) needSeq(es string) {
 		fail("no sequence vocabulary for element sort %s: %v", es, err)
 	}
 	e.decls = append(e.decls, string(data))
+}
+
+func (e *Enc) declStrconv() {
+	e.declRaw("fmt_float", "(declare-fun fmt_float (F64 Int Int Int) Str)\n(declare-fun parse_float (Str Int) F64)\n(declare-fun parse_float_err (Str Int) Iface)")
+}
+
+// fmtBytes: the text fmt renders a byte slice with under %v, as an uninterpreted function of the slice's bytes.
+func (e *Enc) fmtBytes(st *State, sl string) string {
+	e.declRaw("fmt_v_bytes", "(declare-fun fmt_v_bytes ((Array Int Int) Int Int) Str)")
+	h := e.arrHeap(types.Universe.Lookup("byte").Type())
+	return app("fmt_v_bytes", sel(st.H(h), app("s_arr", sl)), app("s_off", sl), app("s_len", sl))
+}
+
+func (e *Enc) declText() {
+	e.declRaw("str_contains", "(declare-fun str_contains (Str Str) Bool)\n(declare-fun str_trim (Str) Str)\n(declare-fun re_match (Int Str) Bool)")
 }
